@@ -266,7 +266,7 @@ def c10_streams(seed, tier):
 
 
 def c12_streams(seed, tier):
-    prof = Profile(**PLAIN, actions=NONCONSUMING, n_imods=(0, 3), n_iconds=(0, 3), n_amods=(0, 3), n_aconds=(0, 3), n_inputs=(0, 4), held_at_insert_p=0.0,
+    prof = Profile(actions=NONCONSUMING, modmask_p=0.4, n_imods=(0, 3), n_iconds=(0, 3), n_amods=(0, 3), n_aconds=(0, 3), n_inputs=(0, 4), held_at_insert_p=0.0,
                    cond_kinds=SCRIPTED, mod_kinds=CUSTOM_MODS, lifecycle_p=0.0)
     return gen.app_batch(seed, 400 if tier == "quick" else 15000, prof, "c12r")
 
